@@ -14,7 +14,7 @@ import random
 from collections.abc import MutableMapping
 
 from vf import simrt
-from vf.core import Check, CaseResult, HarnessError, U, EPS
+from vf.core import Check, CaseResult, HarnessError, HarnessSignal, U, EPS
 
 SAFETY = 60.0
 D0 = 16 * U
@@ -50,7 +50,7 @@ class RecordingMapping(MutableMapping):
 # ---------------------------------------------------------------------------
 
 DURS = ['none', 0, D0, 4 * D0]
-LIVES = ['runner', 'runner', 'closeonly', 'closeonly', 'noclose', 'destroy']
+LIVES = ['runner', 'runner', 'closeonly', 'closeonly', 'noclose', 'destroy', 'inloop']
 
 
 LONG = 61.0          # a healthy computation that outlasts the 60 s safety timeout of the waiters
@@ -88,8 +88,20 @@ def gen_rand(rng, flavour):
             'tail': rng.choice([0, 0, 4 * U, dnum + 8 * U]),
             'pause': rng.choice([0, 0, 0, 2 * U, dnum]),
         })
-    return {'inv': inv, 'threads': threads,
-            'cache': rng.choice(['dict', 'dict', 'rec', 'lru'])}
+    return domain_dims(rng, flavour, {'inv': inv, 'threads': threads,
+                                      'cache': rng.choice(['dict', 'dict', 'rec', 'lru'])})
+
+
+def domain_dims(rng, flavour, scen):
+    """What the wrapped function returns / raises / does when cancelled: None results, failures that are BaseException but
+    not Exception, cancellation that takes a while to unwind."""
+    if rng.random() < 0.08:
+        scen['result'] = 'none'
+    if flavour != 'c01' and rng.random() < 0.25:
+        scen['fail_class'] = 'signal'
+    if rng.random() < 0.15:
+        scen['unwind'] = rng.choice([D0, 4 * D0])
+    return scen
 
 
 def gen_takeover(rng, flavour):
@@ -118,7 +130,7 @@ def gen_takeover(rng, flavour):
                         for _ in range(rng.choice([1, 1, 2]))],
             'life': rng.choice(['runner', 'noclose']), 'tail': 0, 'pause': 0,
         })
-    return {'inv': inv, 'threads': threads, 'cache': rng.choice(['dict', 'rec'])}
+    return domain_dims(rng, flavour, {'inv': inv, 'threads': threads, 'cache': rng.choice(['dict', 'rec'])})
 
 
 def gen_small(rng, flavour, dur):
@@ -134,7 +146,7 @@ def gen_small(rng, flavour, dur):
                 'callers': [{'key': 0, 'off': 0, 'style': 'await', 'param': 0}
                             for _ in range(ncall)],
                 'life': 'runner', 'tail': 0, 'pause': 0}]
-    return {'inv': inv, 'threads': threads, 'cache': 'dict'}
+    return domain_dims(rng, flavour, {'inv': inv, 'threads': threads, 'cache': 'dict'})
 
 
 def make_strategy(rng, spec=None):
@@ -195,11 +207,18 @@ class CacheHarness:
                     else:
                         await aio.sleep(dur)
                     if fail:
-                        raise HarnessError(n)
-                except HarnessError:
+                        raise (HarnessSignal if scen.get('fail_class') == 'signal' else HarnessError)(n)
+                except (HarnessError, HarnessSignal):
                     emit('iend', n, 'raise')
                     raise
                 except aio.CancelledError:
+                    if scen.get('unwind'):
+                        # cleaning up takes a while (closing a connection, say): the invocation is in progress until then
+                        emit('unwinding', n)
+                        try:
+                            await aio.sleep(scen['unwind'])
+                        except aio.CancelledError:
+                            pass
                     emit('iend', n, 'cancel')
                     raise
                 except GeneratorExit:
@@ -209,7 +228,7 @@ class CacheHarness:
                     if hasattr(s, 'inv_end'):
                         s.inv_end(n)
                 emit('iend', n, 'ok')
-                return (key, n)
+                return None if scen.get('result') == 'none' else (key, n)
 
             cf = A.threadsafe_async_cache(f, cache=cache) if scen['cache'] != 'dict' \
                 else A.threadsafe_async_cache(f)
@@ -244,7 +263,7 @@ class CacheHarness:
                             else:
                                 r = await cf(c['key'])
                             emit('ret', cid, 'ok', r)
-                        except HarnessError as e:
+                        except (HarnessError, HarnessSignal) as e:
                             emit('ret', cid, 'exc', 'HarnessError', e.args[0])
                         except TimeoutError:
                             emit('ret', cid, 'timeout', None)
@@ -271,6 +290,15 @@ class CacheHarness:
                             await aio.gather(*awaited, return_exceptions=True)
                         if spec['tail']:
                             await aio.sleep(spec['tail'])
+                        if spec['life'] == 'inloop':
+                            # a supervisor-style shutdown from inside: everything else is cancelled and awaited while the
+                            # loop keeps running (it never stops with something pending)
+                            ts = [t for t in aio.all_tasks(loop) if t is not aio.current_task()]
+                            emit('cancel_all_inside', lname, len(ts))
+                            for t in ts:
+                                t.cancel()
+                            if ts:
+                                await aio.gather(*ts, return_exceptions=True)
 
                     life = spec['life']
                     try:
@@ -286,6 +314,8 @@ class CacheHarness:
                         s.sleep(spec['pause'])
                     if life == 'noclose':
                         return
+                    if life == 'inloop':
+                        life = 'runner'
                     if life == 'resume':
                         # the loop is simply run again later (a GUI / REPL style owner): what it left pending goes on
                         pend = [t for t in tasks if not t.done()]
@@ -341,7 +371,7 @@ class CacheHarness:
                                 try:
                                     r = await cf(k)
                                     emit('ret', f'P.{k}', 'ok', r)
-                                except HarnessError as e:
+                                except (HarnessError, HarnessSignal) as e:
                                     emit('ret', f'P.{k}', 'exc', 'HarnessError', e.args[0])
                                 except BaseException as e:      # noqa
                                     emit('ret', f'P.{k}', 'exc', type(e).__name__, repr(e)[:100])
@@ -365,7 +395,7 @@ class CacheHarness:
                             try:
                                 r = await cf(k)
                                 emit('eret', k, 'ok', r)
-                            except HarnessError as e:       # the fresh computation itself was scripted to fail
+                            except (HarnessError, HarnessSignal) as e:       # the fresh computation itself was scripted to fail
                                 emit('eret', k, 'own_failure', e.args[0])
                             except BaseException as e:      # noqa
                                 emit('eret', k, 'exc', repr(e)[:100])
@@ -406,8 +436,9 @@ class CacheHarness:
 class View:
     """Indexes over one event log."""
 
-    def __init__(self, log):
+    def __init__(self, log, none_result=False):
         self.log = log
+        self.none_result = none_result
         self.inv = {}          # n -> dict(start seq, t0, key, loop, cid, end seq, t1, kind)
         self.calls = {}        # cid -> dict
         self.stops = collections.defaultdict(list)   # loop -> [(seq, t)]
@@ -442,6 +473,13 @@ class View:
                 self.deaths.append((e[-1], e[1], k))
             elif k == 'cancel_req':
                 self.cancel_reqs.add(e[1])
+        if none_result:
+            # the wrapped function returns None: a caller's None is attributed to the first successful invocation of its
+            # key that had ended by then (values cannot tell invocations apart; the invocation counts are judged as ever)
+            for c in self.calls.values():
+                if c['kind'] == 'ok' and c['detail'] is None:
+                    oks = sorted(n for n, d in self.inv.items() if d['key'] == c['key'] and d['kind'] == 'ok' and d['s1'] < c['s1'])
+                    c['detail'] = (c['key'], oks[0]) if oks else None
 
     def first_stop_after(self, loop, seq):
         for s, t in self.stops.get(loop, ()):
@@ -563,6 +601,10 @@ def judge_c06(v: View, res: CaseResult, cache, scen):
             items = {}
         for key, val in items.items():
             k = key[0][0]
+            if val is None and scen.get('result') == 'none':
+                if not any(kk == k for kk, _ in ok_vals):
+                    res.violate('C06:cached-without-success', 'cache holds an entry for a key no invocation succeeded for', key=repr(key))
+                continue
             if not well_formed(val) or tuple(val) not in ok_vals or val[0] != k:
                 res.violate('C06:cached-without-success', 'cache holds a value no successful invocation produced',
                             key=repr(key), value=repr(val))
@@ -791,10 +833,13 @@ class CacheCheck(Check):
             res.inconclusive = 'harness thread error: ' + repr(r.thread_errors[:2])
             res.sample = {'log': r.log[-30:]}
             return res
-        v = View(r.log)
+        v = View(r.log, none_result=scen.get('result') == 'none')
         st = res.stats
         st['executions'] += 1
         st[f'fam_{case["fam"]}'] += 1
+        for dim in ('result', 'fail_class', 'unwind'):
+            if scen.get(dim):
+                st[f'dimension_{dim}_{scen[dim] if dim != "unwind" else "slow"}'] += 1
         st[f'strategy_{strat.kind}'] += 1
         if any(e[0] == 'inject' for e in r.log):
             st['injected_loop_stop'] += 1
